@@ -799,6 +799,7 @@ func oracleC08(cx *CheckCtx, runs []*CaseRun) []Finding {
 			a, b  int
 		}
 		lastOut := map[key]RenderObs{}
+		okSince := map[key]int{}  // value -> render # at which it rendered ok; only hint setters happened since
 		names := map[int]string{} // pool index -> qualifier seen first ("" = bare)
 		ri := -1
 		anonAfterUse := false
@@ -806,6 +807,9 @@ func oracleC08(cx *CheckCtx, runs []*CaseRun) []Finding {
 			if !o.IsRender() {
 				if o.Kind != OpLower {
 					lastOut = map[key]RenderObs{}
+				}
+				if o.Kind != OpLower && o.Kind != OpHintName && o.Kind != OpHintAlias && o.Kind != OpHintNames {
+					okSince = map[key]int{}
 				}
 				continue
 			}
@@ -837,6 +841,20 @@ func oracleC08(cx *CheckCtx, runs []*CaseRun) []Finding {
 				}
 			}
 			lastOut[k] = obs
+			// (1a) every path of a value that rendered ok is registered, registered names are final,
+			// and hint setters only concern unregistered paths: hints given after a successful render
+			// cannot make the next render of the same value fail
+			if since, ok := okSince[k]; ok && obs.Class == "err:format" {
+				fs = append(fs, Finding{Property: "C08", Shape: "render-fails-after-hint", What: fmt.Sprintf("the value rendered in #%d renders no longer in #%d although only import hints were given in between: %s", since, ri+1, trunc(obs.Err)), Case: cr.Case.Text(), Observed: trunc(obs.Err)})
+				break
+			}
+			if obs.Class == "ok" {
+				if _, ok := okSince[k]; !ok {
+					okSince[k] = ri + 1
+				}
+			} else {
+				delete(okSince, k)
+			}
 			// (1b) the import block of a File render binds every qualifier used in the body
 			if obs.Class == "ok" && o.Kind == OpRender {
 				if what := unboundQualifier(obs.Out, poolOf(cr.Case)); what != "" {
@@ -1226,7 +1244,8 @@ func fileLevelComments(cx *CheckCtx, cr *CaseRun, ri int, out string, headers, p
 			}
 			if squashWS(first) != "" && inDoc && !containsAny(pkgc, first) {
 				shape := "header-in-package-doc"
-				if strings.Contains(h, "\f") {
+				if strings.Contains(strings.Join(headers, "\n"), "\f") {
+					// (a form feed in ANY of the header comments: they form one comment group)
 					// go/printer counts a form feed inside a comment as a line break when it tracks
 					// positions, so the blank line jennifer writes after the header is dropped
 					shape = "header-with-formfeed-in-package-doc"
